@@ -112,6 +112,8 @@ type Interp struct {
 	hashApps   []*hashApp
 	opaqueSeq  int
 	objSeq     int
+	callRing   [12]string
+	callRingN  int
 	sideTab    map[*value]interface{}
 	pathLog    []string
 	intBounds  map[int][2]*big.Int
@@ -310,7 +312,7 @@ func (in *Interp) runPath(fn *ssa.Function) (end pathEnd) {
 				in.reportPanic(r)
 				end = pathEnd{"violation", "panic: " + r.msg}
 			default:
-				panic(r)
+				panic(fmt.Sprintf("%v [last calls: %s]", r, strings.Join(in.lastCalls(), " > ")))
 			}
 		}
 	}()
@@ -728,6 +730,8 @@ func (in *Interp) callSSA(caller *frame, fn *ssa.Function, args []value, env []v
 	}
 	in.depth++
 	in.stack = append(in.stack, fn.String())
+	in.callRing[in.callRingN%len(in.callRing)] = fn.String()
+	in.callRingN++
 	defer func() { in.depth--; in.stack = in.stack[:len(in.stack)-1] }()
 	for fr.block != nil {
 		in.runFrame(fr)
@@ -1226,4 +1230,15 @@ func sortedKeys(m map[string]bool) []string {
 	}
 	sort.Strings(k)
 	return k
+}
+
+// lastCalls: the most recently entered interpreted functions (diagnostics for engine panics only)
+func (in *Interp) lastCalls() []string {
+	var out []string
+	for i := in.callRingN - len(in.callRing); i < in.callRingN; i++ {
+		if i >= 0 {
+			out = append(out, in.callRing[i%len(in.callRing)])
+		}
+	}
+	return out
 }
